@@ -25,7 +25,7 @@ RULE = ("reference run = producer (1-2 sending tasks, idempotent or acks 0/1/all
         "drops / resets / lost replies / delays on every request. Stop points: stop() at loop event k (network delivery "
         "or timer firing) for k sampled uniformly between start() and the end of the reference run (quick 5, thorough 40 "
         "per reference) plus the reference's own stop at the end. Judged: stop() returns normally within B_stop = 4 x "
-        "(request + session + rebalance timeout) + 40 x backoff (run continued to 10 x B); no task, scheduled timer or "
+        "(request + session + rebalance timeout) + 40 x backoff (run continued to 4 x B); no task, scheduled timer or "
         "open transport of the client two loop turns later; send() -> ProducerClosed, getmany()/getone() -> "
         "ConsumerStoppedError within 5 s; LeaveGroup seen when the member had joined, the coordinator was reachable, the "
         "cluster healthy and no fault fate was hit. Non-trivial = cluster not healthy at the stop or a fault hit or a "
